@@ -228,8 +228,9 @@ class ThetaForecaster(ExponentialSmoothing):
             y, X, update_params=False
         )  # use custom update_params routine
         if update_params:
+            y = self._y  # use updated y
             if self.deseasonalize:
-                y = self.deseasonalizer_.transform(self._y)  # use updated y
+                y = self.deseasonalizer_.transform(y)
             self.initial_level_ = self._fitted_forecaster.params["smoothing_level"]
             self.trend_ = self._compute_trend(y)
         return self
